@@ -827,8 +827,11 @@ def run(ctx):
                 "core.build route, optionally after a prior operation; operation drawn from partition / one-to-one "
                 "collapse / one-to-many collapse with random flags and a labeller from the named family (or a dict "
                 "in either form, or a scripted iterator); distinct = distinct (operation, axis, receiver content); "
-                "non-trivial = at least two IDs on the axis (one-to-many: at least one vector with a group)")
-    ctx.trusted = ["labeller results per ID are computed by the harness from (id, metadata) and handed to Lean; "
+                "non-trivial = at least two IDs on the axis (one-to-many: at least one vector with a group). "
+                "Stress: random layout left by reads, warm-then-in-place histories, awkward ID text, wide tables, "
+                "error profiles, aliasing probes; every result table is read through its own by-ID lookups first")
+    ctx.trusted = ["profile=raise / receiver-unchanged / aliasing / error-path expectations are evaluated in Python",
+                   "labeller results per ID are computed by the harness from (id, metadata) and handed to Lean; "
                    "the labeller is assumed deterministic (one-to-many calls it twice per ID)",
                    "values are multiples of 840/8 so that every sum and division is exact in binary64"]
     ctx.assumptions = ["start tables have at least one observation and one sample (C11 domain)",
@@ -900,3 +903,9 @@ def replay(ctx, rec):
         else:
             pyf = {k: list(v) for k, v in fj["map"]}
     check(ctx, t, axis, op, pyf, ("replay",), {"replay": True}, True)
+    # the stress options of the original run (layout, profile, aliasing probe) were drawn at random: try several
+    import random
+    for k in range(12):
+        if op["op"] == "otm":
+            pyf = otm_generator("scripted", 1, {i: list(v) for i, v in scripts.items()})
+        check(ctx, t, axis, op, pyf, ("replay", "stress"), {"replay": True}, True, rng=random.Random(k))
